@@ -22,6 +22,9 @@ import PercevalModel.Model.C12Solve
     `{"res":[q…]}` or `{"none":true}`: the model of `solve.py: solve` (`Model/C12Solve.lean`) on the function
     `f(x) = |b + Σ aᵢ·xᵢ|` over ℚ (exact), the numerical minimiser being the oracle that returns `opt` (the point the
     real minimiser was observed to return; it is not consulted when every parameter is imposed).  Exact replies.
+  * `{"op":"leave","m":N,"U":rows,"prec":"p/q","ignore":b}` → `{"zeroed":[[n,j],…]}`: the entries of the array
+    shared by all attempts of the retry loop that one attempt started on `U` changes (`inPlace`: `u[n,j] = 0` of the
+    leading identity skips; every other entry is left as it is).
   Numbers in replies of `prod`/`fold` are rounded down to multiples of 2⁻¹⁰⁰ (the harness compares with 1e-9).
 -/
 
@@ -171,6 +174,22 @@ def handleProd (j : Json) : Except String Json := do
   if ls.any fun l => l.1 + l.2.1 > m then throw "leaf outside the circuit"
   return Json.mkObj [("M", rowsOfV (prodLeavesV m ls))]
 
+def handleLeave (j : Json) : Except String Json := do
+  let m ← natOf j "m"
+  let U ← readMatN m (← j.getObjVal? "U")
+  let prec ← ratOfJson (← j.getObjVal? "prec")
+  let ignore ← boolOf j "ignore"
+  let cfg : Cfg GQ := { small := fun z => decide (GQ.normSq z ≤ prec * prec), ignoreId := ignore, usePerm := false }
+  let U0 := materialise U
+  let V := materialise (inPlace cfg U0)
+  let changed := (cells m).filter fun c => decide (getN V c.2 c.1 ≠ getN U0 c.2 c.1)
+  -- `inPlace` only ever touches the cells of the double loop: anything else that differs is reported as well
+  let other := (List.finRange m).flatMap fun a => (List.finRange m).filterMap fun b =>
+    if V a b ≠ U0 a b ∧ ¬ (cells m).contains (b.val, a.val) then some (a.val, b.val) else none
+  return Json.mkObj [
+    ("zeroed", Json.arr (changed.map fun c => Json.arr #[toJson c.2, toJson c.1]).toArray),
+    ("other", Json.arr (other.map fun c => Json.arr #[toJson c.1, toJson c.2]).toArray)]
+
 def ratListOf (j : Json) (k : String) : Except String (List ℚ) := do
   (← arrOf j k).toList.mapM ratOfJson
 
@@ -195,6 +214,7 @@ def handle (j : Json) : Json :=
     if op == "prod" then handleProd j
     else if op == "fold" then handleFold j
     else if op == "solve" then handleSolve j
+    else if op == "leave" then handleLeave j
     else throw "unknown op"
   match r with
   | .ok x => x
